@@ -18,6 +18,7 @@ E-LTS (a real `NodeServer`, the harness is the peer):
   `node <name> transitive=<0|1>`                           → `ok`        (fresh NodeServer; forgets all sessions)
   `open <k> <server|client> thisname= thisconn= connid= transitive=` → `sent=[…]`
   `send <k> <frame> check= elected= fresh= pids= groups= rem= sessions= h=` → observation
+  `batch <k> <frame>+<frame>+… env…`                       → observation (frames written back-to-back)
   `local <k> <spawn|term> <pid> <rem 0|1> groups=<scope/group/pid;…>` → observation
   `garbage <k> <hex>` / `drop <k>`                         → observation (transport closed)
   `survived`                                               → `1` (a fresh session authenticated after a wire fault on another one)
@@ -247,9 +248,13 @@ def showObs (ses : Ses) (eff : List (Effect D)) : String :=
   let replies := eff.filterMap (fun e => match e with
     | .deliverLocal pid true => some s!"reply:{pid}"
     | _ => none)
-  let probe := eff.filterMap (fun e => match e with
-    | .deliverLocal pid c => some s!"{pid}:{if c then "call" else "cast"}"
+  -- deliveries grouped by target (ascending pid), in arrival order per target: the order in
+  -- which different actors get to run is not part of the observation
+  let dl := eff.filterMap (fun e => match e with
+    | .deliverLocal pid c => some (pid, c)
     | _ => none)
+  let probe := (sortNats (dl.map (·.1)).eraseDups).flatMap (fun p =>
+    (dl.filter (·.1 == p)).map (fun (x : Nat × Bool) => s!"{x.1}:{if x.2 then "call" else "cast"}"))
   let dead := ses.st.stopped
   let proxies := if dead then [] else sortNats ses.st.proxies
   let pg := if dead then "" else showPg ses.pg
@@ -422,6 +427,25 @@ def step (st : St) (op impl : String) : St × StepOut :=
       let nc := (eff.filter (fun e => match e with | .connect _ => true | _ => false)).length
       ({ st.set (k.toNat?.getD 0) sesO with connects := st.connects + nc },
        { model := showObs ses' eff, oracle := orc, nontrivial := nt })
+    | _, _ => (st, { model := "bad-op" })
+  | "batch" :: k :: fs :: _ =>
+    match k.toNat?.bind st.get?, (splitOnChar fs '+').mapM parseFrame? with
+    | some ses, some frames =>
+      let env := parseEnv ws
+      let (s', eff) := frames.foldl (fun (acc : SState D × List (Effect D)) fr =>
+        let (s2, e2) := Session.handle (Hof tbl) ses.cfg acc.1 env (.frame fr)
+        (s2, acc.2 ++ e2)) (ses.st, [])
+      let ses' : Ses := { ses with st := s', pg := applyPg ses.pg eff,
+                                     authed := ses.authed || eff.contains Effect.authenticated }
+      let rem := ((getField ws "rem").bind natList?).getD []
+      -- the oracle sees the digest the burst may have carried
+      let presented := frames.find? (fun f => match f with
+        | .auth (.clientChallenge _ _) => true
+        | .auth (.serverAck _) => true
+        | _ => false)
+      let (sesO, orc) := oracleOn ses' presented tbl rem impl
+      let nt := eff.any (·.gated) || s'.stopped
+      (st.set (k.toNat?.getD 0) sesO, { model := showObs ses' eff, oracle := orc, nontrivial := nt })
     | _, _ => (st, { model := "bad-op" })
   | "local" :: k :: what :: pid :: rem :: _ =>
     match k.toNat?.bind st.get?, pid.toNat? with
